@@ -808,7 +808,6 @@ class BaseConnector:
                 if not conns:
                     # The very last connection was reclaimed: drop the key
                     del self._conns[key]
-                proto.idle = False
                 self._acquired.add(proto)
                 if self._limit_per_host:
                     self._acquired_per_host[key].add(proto)
@@ -819,6 +818,12 @@ class BaseConnector:
                         except BaseException:
                             self._release(key, proto, should_close=True)
                             raise
+                    if not proto.is_connected():
+                        # Still idle while the callbacks ran: the peer hung up
+                        # or sent bytes nobody asked for (see data_received).
+                        self._release(key, proto, should_close=True)
+                        return await self._get(key, traces)
+                proto.idle = False
                 return Connection(self, key, proto, self._loop)
 
             # Connection cannot be reused, close it
